@@ -93,11 +93,11 @@ class Site:
         return "%s:%d" % (self.body.file, self.line)
 
 
-def enumerate_sites(prog, include_add=False):
+def enumerate_sites(prog, include_add=False, scope=None):
     sites = []
     for k in sorted(prog.bodies):
         b = prog.bodies[k]
-        if not in_scope(b):
+        if not (scope or in_scope)(b):
             continue
         local = []
         for bb in sorted(b.reachable()):
@@ -817,3 +817,42 @@ def check_h(prog, rep):
               "the vector scanner no longer leaves its loop for the scalar scanner when a chunk contains a byte with the top bit set (a test `testz(splat(0x80), chunk)` / `movemask(chunk)` "
               "in front of the classification): it can then step over part of a multi-byte character", where=guard.where() if guard else "%s:%d" % (b.file, b.line),
               instance={"top_bit_test": (guard.callee or "").split("::")[-1] if guard else None})
+
+
+def check_i(prog, rep):
+    """C04.i — building a formatter from a configuration cannot panic.  The front-end library (`pasfmt.lib`: the conversions
+    `From<&FormattingConfig>` for the core's settings, the assembly of the formatter, the configuration type's own methods) runs before
+    the first byte of input is read, with every value a configuration file or `-C` may hold.  Every panic-capable site in it — unwrap /
+    expect / index / slice, a division, and any arithmetic that is checked in a build with overflow checks (`u8 * u8` of two option
+    values) — needs a guard the checker derives (the guards of C04.b); the unchanged tree has none at all.  `continuation_indents *
+    tab_width` without saturation aborts every run under `tab_width=16, continuation_indents=16`, whatever the input."""
+    R = "C04.i"
+    # serde's derives (`pasfmt::_::<impl ..>`, anonymous-const impls) are expansions of a foreign macro: they count fields with constant
+    # `0 + 1 + 1 ..` under the demo feature and are not part of building a formatter
+    scope = lambda b: b.crate == "pasfmt.lib" and not b.j.get("const_fn") and "::tests::" not in b.npath and "::_::" not in b.npath
+    bodies = [b for b in prog.bodies.values() if scope(b)]
+    conv = [b for b in bodies if "ReconstructionSettings" in b.npath and "From<&" in b.npath.replace(" ", "")] or [b for b in bodies if "ReconstructionSettings" in b.npath and "from" in b.npath.split("::")[-1]]
+    rep.check(bool(conv), R, "anchor:conversion-in-scope", "the conversion of FormattingConfig into ReconstructionSettings is not among the %d front-end bodies scanned" % len(bodies))
+    rep.floor(R, "front-end library bodies scanned", len(bodies), 22)
+    sites = enumerate_sites(prog, include_add=True, scope=scope)
+    n_auto = 0
+    for s in sites:
+        fn = AUTO.get(s.kind)
+        why = None
+        if fn is not None:
+            try:
+                why = fn(prog, s)
+            except Exception:
+                why = None
+        if why:
+            n_auto += 1
+            rep.ok(R, {"site": s.key, "guard": "verified: " + why})
+            continue
+        rep.fail(R, "site:" + s.key, "building the formatter from a configuration can panic: %s in %s (%s) — a value every configuration may hold reaches an operation "
+                 "that aborts (with overflow checks) or wraps (without); use saturating_* / checked_* or widen first" % (s.kind, short(s.body.npath), s.desc),
+                 where=s.where(), instance={"site": s.key})
+    rep.ok(R, {"front_end_bodies": len(bodies), "panic_capable_sites": len(sites), "verified_by_guard": n_auto})
+    # the enumeration itself is exercised on the fixture crate (checked arithmetic must be seen there)
+    fx = enumerate_sites(prog, include_add=True, scope=lambda b: b.crate == "pasfmt_canary.lib")
+    if any(b.crate == "pasfmt_canary.lib" for b in prog.bodies.values()):
+        rep.check(any(x.kind == "arith" for x in fx), R, "fixture:checked-arithmetic-is-enumerated", "no checked arithmetic found in the fixture crate: the enumeration of overflow checks is broken")
